@@ -259,6 +259,32 @@ def k7(run, sm):
             run.missing("C11.K7", "Bounds::bounds and Node conversion of %s" % short(t))
         roots += [(t, r) for r in rs]
     run.floor("C11.K7", "post_scale_roots", len(roots), 14)
+    # the tag/enclosure pass also runs on the scaled fragments: the functions of FragmentTree and what they call
+    # directly (Fragment::can_fit, a helper such as is_inside ..; not the per-type bounds()/Node conversions, which are
+    # the roots above) take no cell-unit constant at all - a tolerance there is an absolute length in output units
+    ftree = [p for p in prog.bodies if re.search(r"fragment_tree::FragmentTree::\w+(::\{closure#\d+\})*$", p)]
+    region, work = set(), list(ftree)
+    while work:
+        q = work.pop()
+        if q in region or q not in prog.bodies or prog.bodies[q].get("crate") != "svgbob":
+            continue
+        region.add(q)
+        work.extend(prog.closures_of(q))
+        for _, c in prog.calls(q):
+            n = Program.callee_name(c)
+            if n in prog.bodies and not re.search(r"Bounds>::bounds$|Node<MSG>>::from$|Into<.*>>::into$|::fmt$", n) and not re.search(UNIT, n) and \
+                    re.search(r"fragment_tree::FragmentTree::|fragment::Fragment::|fragment_span::FragmentSpan::", n):
+                work.append(n)
+    run.floor("C11.K7", "enclosure_pass_functions", len(region), 8)
+    nbare = 0
+    for q in sorted(region):
+        for bid, c in prog.calls(q):
+            if re.search(UNIT, Program.callee_name(c)):
+                nbare += 1
+                run.bad("C11.K7", "unscaled-length/%s/%s" % (short(q), short(Program.callee_name(c))), where(c),
+                        "%s, part of the tag/enclosure pass that runs on scaled fragments, takes the cell-unit length %s: a tolerance or offset there does not scale, so which text or tag a shape encloses depends on the scale" % (short(q), short(Program.callee_name(c))))
+    if not nbare:
+        run.ok("C11.K7", "the enclosure pass (%d functions) uses no cell-unit constant" % len(region), where(prog.bodies[ftree[0]]) if ftree else None)
     seen = set()
     for t, root in roots:
         reach = [p for p in set(prog.reachable([root])) | {root} if p in prog.bodies and prog.bodies[p].get("crate") == "svgbob"]
